@@ -149,7 +149,13 @@ func (dp *deniableProver) proofStep() (bool, error) {
 	for i := range dp.dv {
 		dv := dp.dv[i]
 		if dv != nil && i < len(msgs) {
-			dv.inbox <- msgs[i][keySize:] // send to verifier
+			msg := msgs[i]
+			if len(msg) >= keySize {
+				msg = msg[keySize:]
+			} else {
+				msg = nil // participant dropped out: its verifier sees an empty message
+			}
+			dv.inbox <- msg // send to verifier
 		}
 	}
 
@@ -185,11 +191,12 @@ func (dp *deniableProver) challengeStep() error {
 	// (even if all others turn out to be maliciously generated).
 	mix := make([]byte, keySize)
 	for i := range keys {
-		com := dp.msgs[i][:keySize] // node i's randomness commitment
-		key := keys[i]              // node i's committed random key
+		com := dp.msgs[i] // node i's randomness commitment (prefix)
+		key := keys[i]    // node i's committed random key
 		if len(com) < keySize || len(key) < keySize {
 			continue // ignore participants who dropped out
 		}
+		com = com[:keySize]
 		chk := make([]byte, keySize)
 		_, err := dp.suite.XOF(key).Read(chk)
 		if err != nil {
